@@ -13,7 +13,8 @@ pub const NONCE: [u8; 8] = [9u8; 8];
 
 /// ops: [kind, a, b]; kind 0 read(a) | 1 seek Start(a) | 2 seek Current(sign a, magnitude b) | 3 seek End(sign a, magnitude b)
 pub fn op_to_seek(op: &[u64]) -> Option<SeekFrom> {
-    let signed = |s: u64, m: u64| if s == 1 { -(m as i64) } else { m as i64 };
+    // magnitude 2^63 with sign 1 is i64::MIN (wrapping_neg keeps it; every other value as before)
+    let signed = |s: u64, m: u64| if s == 1 { (m as i64).wrapping_neg() } else { m as i64 };
     match op[0] {
         1 => Some(SeekFrom::Start(op[1])),
         2 => Some(SeekFrom::Current(signed(op[1], op[2]))),
@@ -301,6 +302,102 @@ mod scaled {
                     class,
                     nontrivial: len > 0,
                     meta: json!({"len": len, "wire_len": wire.len(), "piece": piece}),
+                });
+            }
+        }
+        c11_enc_oor_cases(rng, tier, out);
+    }
+
+    /// Out-of-range seeks on the REAL reader against the model (work package fixenc): the D20 guard of the Start
+    /// arm (`no_tag_position_to_tag_position(pos)` would overflow u64 -> InvalidInput, nothing touched), the
+    /// "chunk number out of range" exit after the inner layer was moved, and the i64 range tests of the Current /
+    /// End arms.  Each history: a short in-range prefix, the out-of-range seek, then TWO reads (the state after the
+    /// error: a reader whose inner layer was moved delivers the cached chunk, then a false end of stream), an
+    /// in-range seek and a last read.  Status class, returned position and every state column of the rows must
+    /// equal the model's (`c11_enc` of Run.v evaluates EncLayer.eseek / eread).  Outside the property's text (a
+    /// cursor's seeks to [0, len]): no oracle.  `Current(i64::MAX)` is issued at position 0 only: from a position
+    /// p > 0 the source's plain `i64 + i64` overflows (debug build: panic; release: wraps) — left out.
+    pub fn c11_enc_oor_cases(rng: &mut Rng, tier: &str, out: &mut Out) {
+        let ch = chunk();
+        let cts = ch + tag();
+        let t = u64::MAX / cts - 1; // the guard: pos / CHUNK > t is refused
+        let last_ok = t * ch + (ch - 1);
+        let first_bad = (t + 1) * ch;
+        let i64max = i64::MAX as u64;
+        // (name, op, must be issued at position 0)
+        let mut seeks: Vec<(String, Vec<u64>, bool)> = vec![
+            ("start-u64max".into(), vec![1, u64::MAX, 0], false),
+            ("start-u64max-1".into(), vec![1, u64::MAX - 1, 0], false),
+            ("start-u64max-chunk".into(), vec![1, u64::MAX - ch, 0], false),
+            ("start-guard-first-refused".into(), vec![1, first_bad, 0], false),
+            ("start-guard-last-accepted".into(), vec![1, last_ok, 0], false),
+            ("start-2^63-1".into(), vec![1, (1u64 << 63) - 1, 0], false),
+            ("start-2^63".into(), vec![1, 1u64 << 63, 0], false),
+            ("start-2^63+1".into(), vec![1, (1u64 << 63) + 1, 0], false),
+            ("start-2^32-chunks".into(), vec![1, (1u64 << 32) * ch, 0], false),
+            ("start-2^32-chunks-1".into(), vec![1, (1u64 << 32) * ch - 1, 0], false),
+            ("current-i64max-at-0".into(), vec![2, 0, i64max], true),
+            ("current-i64min".into(), vec![2, 1, 1u64 << 63], false),
+            ("end-1".into(), vec![3, 0, 1], false),
+            ("end-i64max".into(), vec![3, 0, i64max], false),
+            ("end-i64min".into(), vec![3, 1, 1u64 << 63], false),
+            ("end-i64min+1".into(), vec![3, 1, i64max], false),
+        ];
+        let k = 1 + rng.below(ch);
+        seeks.push((format!("start-u64max-k"), vec![1, u64::MAX - k, 0], false));
+        let lens: Vec<u64> = if tier == "thorough" {
+            vec![0, 1, 15, 16, ch - 1, ch, ch + 1, ch + 5, 2 * ch, 2 * ch + 20, 3 * ch + 7]
+        } else {
+            vec![0, 1, ch - 1, ch, ch + 5, 2 * ch, 2 * ch + 20]
+        };
+        for len in lens {
+            let plain = rng.bytes(len as usize);
+            let wire = enc_layer_bytes(&plain, 0);
+            for (name, sk, at0) in &seeks {
+                let mut ops: Vec<Vec<u64>> = Vec::new();
+                if !*at0 {
+                    // in-range prefix: a read, a seek into the stream (also across a chunk edge), a read
+                    let p = rng.below(len + 1);
+                    ops.push(vec![0, 1 + rng.below(ch), 0]);
+                    ops.push(vec![1, p, 0]);
+                    ops.push(vec![0, rng.below(9), 0]);
+                    // below-zero targets relative to the position / the end
+                    if name == "current-i64min" && rng.below(2) == 0 {
+                        ops.push(vec![2, 1, len + 1 + rng.below(ch)]);
+                        ops.push(vec![0, 3, 0]);
+                    }
+                    if name == "end-i64min" && rng.below(2) == 0 {
+                        ops.push(vec![3, 1, len + 1 + rng.below(ch)]);
+                        ops.push(vec![0, 3, 0]);
+                    }
+                } else if rng.below(2) == 0 {
+                    ops.push(vec![1, 0, 0]); // still position 0
+                }
+                ops.push(sk.clone());
+                ops.push(vec![0, 1 + rng.below(ch), 0]);
+                ops.push(vec![0, 2 * ch, 0]);
+                ops.push(vec![0, 5, 0]);
+                ops.push(vec![1, rng.below(len + 1), 0]);
+                ops.push(vec![0, ch + 3, 0]);
+                ops.push(vec![2, 0, 0]);
+                let (rows, open_err) = match enc_reader(wire.clone()) {
+                    Ok(mut r) => (run_ops_enc(&mut r, &ops), None),
+                    Err(e) => (vec![], Some(e)),
+                };
+                let oracle: Result<(), String> = match &open_err {
+                    Some(e) => Err(format!("open failed: {e}")),
+                    None => Ok(()),
+                };
+                out.case(&Case {
+                    id: format!("c11-enc-oor-L{len}-{name}"),
+                    model_fn: "c11_enc",
+                    args: vec![jbytes(&plain), json!(ops)],
+                    imp: json!(rows),
+                    oracle_ok: oracle.is_ok(),
+                    oracle_msg: oracle.err().unwrap_or_default(),
+                    class: format!("out-of-range {name}"),
+                    nontrivial: len > 0,
+                    meta: json!({"len": len, "wire_len": wire.len(), "seek": sk}),
                 });
             }
         }
